@@ -53,6 +53,13 @@ def generate(seed, mode):
     big = h64(seed, 'big-world') % 12 == 0
     nRi = w.randint(3, 6) if not big else w.randint(7, 11)
     rifaces = _dag(w, nRi, 2 if not big else 4)
+    if h64(seed, 'huge-world') % 40 == 0:
+        # one world in forty: resolution orders of 40-70 entries (a long chain with a few side branches) -- nothing may
+        # depend on orders being short
+        nRi = w.randint(40, 70)
+        # interfaces 0-2 are bare markers, the rest is the chain (with a few side branches)
+        rifaces = [[], [], [], []] + [[i - 1] + ([w.randrange(3, i - 1)] if i > 5 and w.random() < 0.1 else []) for i in range(4, nRi)]
+    huge = h64(seed, 'huge-world') % 40 == 0
     nP = w.randint(2, 4) if not big else w.randint(4, 7)
     pifaces = _dag(w, nP, 2)
     ncls = w.randint(1, 3)
@@ -60,6 +67,9 @@ def generate(seed, mode):
     for c in range(ncls):
         classes.append({'bases': w.sample(range(c), min(c, w.choice([0, 1, 1, 2]))),
                         'impl': w.sample(range(nRi), w.randint(0, 2))})
+    if huge:
+        # a class that implements a bare marker first and the bottom of the deep chain second
+        classes[0]['impl'] = [w.randrange(3), nRi - 1 - w.randrange(3)]
     nobs = w.randint(1, 3)
     obs = [{'c': w.randrange(ncls), 'dp': w.sample(range(nRi), w.choice([0, 0, 1, 2]))} for _ in range(nobs)]
     if shape == 'chain':
@@ -116,6 +126,8 @@ def generate(seed, mode):
         objs = w.random() < 0.35
         keypool.append({'req': [w.randrange(nLK) for _ in range(ar)], 'p': w.randrange(nP + 1),
                         'n': w.randrange(3), 'r': w.randrange(nR), 'objs': objs})
+    if huge and keypool:
+        keypool[0] = dict(keypool[0], req=[nRi] + keypool[0]['req'][1:2], objs=False)      # LK index nRi is the class specification K0
     ops = []
     probe_p = w.choice([15, 30, 60]) if shape != 'specdyn' else w.choice([60, 90])
     gc_rate = w.choice([0.0, 0.03, 0.08])
@@ -124,16 +136,21 @@ def generate(seed, mode):
         # one multi-adapter key, registrations on the product of its components' neighbourhoods
         ar = w.choice([2, 2, 3])
         star = [w.randrange(nLK) for _ in range(ar)]
+        if huge:
+            star[w.randrange(ar)] = nRi        # the class that implements (marker, bottom of the chain): a long order, few keys
         keypool[0] = {'req': star, 'p': w.randrange(nP + 1), 'n': 0, 'r': nR - 1, 'objs': False}
         for j in range(1, min(4, len(keypool))):
             k2 = list(star)
             k2[w.randrange(ar)] = w.randrange(nLK)
             keypool[j] = {'req': k2, 'p': w.randrange(nP + 1), 'n': w.randrange(2), 'r': w.randrange(nR), 'objs': False}
-        nreg = w.randint(6, 22)
+        nreg = w.randint(6, 22) if not huge else w.randint(2, 5)
         for _ in range(nreg):
             k = o.getrandbits(30)
             ops.append({'op': 'reg', 'r': o.randrange(nR), 'req': [o.randrange(nSP) for _ in range(ar)], 'near': star,
                         'p': o.randrange(nP), 'n': o.choice([0, 0, 0, 1]), 'v': o.randrange(len(vals)), 'k': k})
+            if huge:
+                # (index 1 of the star component's order is the marker, 2 the bottom of the chain: make both likely keys)
+                ops[-1]['req'] = [o.choice([1, 2, 2, 3, x]) for x in ops[-1]['req']]
             if o.random() < 0.12:
                 ops.append({'op': 'unreg', 'r': o.randrange(nR), 'sel': o.randrange(64), 'how': o.randrange(3), 'k': k})
             if o.random() < 0.2:
@@ -717,6 +734,20 @@ def execute(program, ctx, mode):
             return kind, reg.subscribers(objs, pi)
         raise ValueError(kind)
 
+    styleno = [0]
+
+    def lk(reg, specs, pi, nm, *default):
+        """reg.lookup(...) as a caller may spell it: positional or keyword arguments, in rotation"""
+        styleno[0] += 1
+        if styleno[0] % 3 == 1:
+            kw = {'required': specs, 'provided': pi, 'name': nm}
+            if default:
+                kw['default'] = default[0]
+            return reg.lookup(**kw)
+        if styleno[0] % 3 == 2 and default:
+            return reg.lookup(specs, pi, name=nm, default=default[0])
+        return reg.lookup(specs, pi, nm, *default)
+
     def same(a, b):
         if isinstance(a, list) and isinstance(b, list):
             return len(a) == len(b) and all(same(x, y) for x, y in zip(a, b))
@@ -766,11 +797,16 @@ def execute(program, ctx, mode):
                     # "... or the default if there is none": two different default objects in a row
                     for _rep in (0, 1):
                         D = object()
-                        g2 = rs[r].lookup(specs, prov(p), nm, D)
+                        g2 = lk(rs[r], specs, prov(p), nm, D)
                         if acc == [None] and g2 is not D and g2 is None or (acc == [None] and g2 is not D and not isinstance(g2, Val)):
                             ctx.violation(prop, 'lookup-default', '%s|lookup|default-not-returned-by-identity|%s' % (prop, where),
                                           {'r': r, 'req': [LK[x % len(LK)] for x in key['req']], 'p': p, 'name': nm, 'got': repr(g2)})
-                    got = rs[r].lookup(specs, prov(p), nm)
+                        elif not (g2 is D and acc == [None]) and not any(g2 is a for a in acc):
+                            # (these are the first calls after whatever happened before the probe: their answers count too)
+                            ctx.violation(prop, 'lookup-vs-model', '%s|lookup|arity%d|%s|%s|first-call-after-the-change' % (
+                                prop, len(specs), 'miss' if g2 is D else ('spurious' if acc == [None] else 'wrong-winner'), where),
+                                {'r': r, 'req': [LK[x % len(LK)] for x in key['req']], 'p': p, 'name': nm, 'got': repr(g2), 'acceptable': repr(acc)})
+                    got = lk(rs[r], specs, prov(p), nm)
                     ctx.state('lookup', len(specs), len(ro_of(r)), len(acc), acc[0] is None)
                     if len(acc) > 1:
                         ctx.probe('ambiguous-provided')
